@@ -381,6 +381,106 @@ func bucket(n int) int {
 	return n
 }
 
+// c09Deep: a corpus with MORE matches than the collector's pre-allocation cap (1000), so that requests
+// with from+n beyond the cap really have something to return there (the generated corpora above are
+// small: their deep requests only meet the "fewer matches than asked for" side).
+func c09Deep(c *vk.Ctx, i int) {
+	r := rand.New(rand.NewSource(vk.SubSeed(c.Seed, fmt.Sprintf("c09-deep-%d", i))))
+	total := 1100 + r.Intn(900)
+	w, err := bluge.OpenWriter(bx.NoMerge(bluge.InMemoryOnlyConfig()))
+	if err != nil {
+		c.Violate("harness-open", err.Error(), nil)
+		return
+	}
+	defer w.Close()
+	perm := r.Perm(total)
+	type dd struct {
+		id string
+		n  int
+		k  string
+	}
+	var docs []dd
+	b := bluge.NewBatch()
+	for x := 0; x < total; x++ {
+		d := dd{id: fmt.Sprintf("d%05d", x), n: perm[x], k: fmt.Sprintf("k%d", perm[x]%7)}
+		docs = append(docs, d)
+		doc := bluge.NewDocument(d.id).AddField(bluge.NewNumericField("n", float64(d.n)).Sortable()).
+			AddField(bluge.NewKeywordField("k", d.k).Sortable()).AddField(bluge.NewKeywordField("all", "x"))
+		b.Update(doc.ID(), doc)
+		if x%(150+i*37) == 149 || x == total-1 {
+			if err := w.Batch(b); err != nil {
+				c.Violate("harness-batch", err.Error(), nil)
+				return
+			}
+			b = bluge.NewBatch()
+		}
+	}
+	rd, err := w.Reader()
+	if err != nil {
+		c.Violate("harness-reader", err.Error(), nil)
+		return
+	}
+	defer rd.Close()
+	type ord struct {
+		name string
+		so   search.SortOrder
+		less func(a, b dd) bool
+	}
+	orders := []ord{
+		{"n asc", search.SortOrder{search.SortBy(search.Field("n"))}, func(a, b dd) bool { return a.n < b.n }},
+		{"n desc", search.SortOrder{search.SortBy(search.Field("n")).Desc()}, func(a, b dd) bool { return a.n > b.n }},
+		{"k asc, _id desc", search.SortOrder{search.SortBy(search.Field("k")), search.SortBy(search.Field("_id")).Desc()}, func(a, b dd) bool {
+			if a.k != b.k {
+				return a.k < b.k
+			}
+			return a.id > b.id
+		}},
+	}
+	pairs := [][2]int{{1001, 0}, {20, 995}, {20, 1000}, {20, total - 30}, {2000, 100}, {500, 600}, {1, 1000}, {10, 999}, {total, 0}, {total + 5, 3}, {50, 1200 % total}, {3, total - 1}}
+	for _, o := range orders {
+		sorted := append([]dd(nil), docs...)
+		sort.Slice(sorted, func(a, b int) bool { return o.less(sorted[a], sorted[b]) })
+		for _, p := range pairs {
+			n, from := p[0], p[1]
+			req := bluge.NewTopNSearch(n, bluge.NewTermQuery("x").SetField("all")).SetFrom(from).SortByCustom(o.so)
+			hits, err := bx.SearchIDs(rd, req)
+			c.Eval(1)
+			if err != nil {
+				c.Violate("topn-error", err.Error(), map[string]interface{}{"docs": total, "n": n, "from": from, "sort": o.name})
+				continue
+			}
+			lo, hi := from, from+n
+			if lo > total {
+				lo = total
+			}
+			if hi > total {
+				hi = total
+			}
+			var want []string
+			for _, d := range sorted[lo:hi] {
+				want = append(want, d.id)
+			}
+			got := idsOf(hits)
+			if n+from > 1000 {
+				c.Event("deep_requests_beyond_the_prealloc_cap_with_more_matches", 1)
+			}
+			if fmt.Sprint(got) != fmt.Sprint(want) {
+				c.Violate("topn-wrong-slice", fmt.Sprintf("%d matches, sort %s, n=%d from=%d: want %d results %v..., got %d results %v...", total, o.name, n, from, len(want), clipIDs(want), len(got), clipIDs(got)),
+					map[string]interface{}{"docs": total, "n": n, "from": from, "sort": o.name, "want": want, "got": got})
+			} else if len(want) > 0 {
+				c.DistinctHash(vk.Hash64(fmt.Sprintf("deep|%s|n%d|f%d", o.name, bucket(n), bucket(from))))
+			}
+		}
+	}
+}
+
+func clipIDs(l []string) []string {
+	if len(l) > 6 {
+		return l[:6]
+	}
+	return l
+}
+
 func runC09(c *vk.Ctx) {
 	c.Rule("generated corpora (multi-segment, pending deletions, single-valued sort fields with missing values and heavy ties) x queries (match-all, term, match, prefix) x sort orders of 1..3 keys from {_score,k,n,d,_id} x asc/desc x missing first/last x (n, from) around 0, the slice/heap switch at 10, the result count and the 1000 pre-allocation cap; " +
 		"reference = all matches ordered by a comparator over the model's field values, ties by enumeration order; paging: After and Before chains under a total order for all page sizes; " +
@@ -402,6 +502,10 @@ func runC09(c *vk.Ctx) {
 		}(w)
 	}
 	wg.Wait()
+	for i := 0; i < c.Pick(2, 24); i++ {
+		c09Deep(c, i)
+	}
+	c.Require("deep_requests_beyond_the_prealloc_cap_with_more_matches", 10)
 	c.Require("topn_store_slice", 50)
 	c.Require("topn_store_heap", 50)
 	c.Require("topn_store_heap-over-prealloc-cap", 10)
